@@ -16,5 +16,5 @@ impl<'a> Iterator for XvecIter<'a> {
 }
 impl Xvec {
     #[verifier::external_body] pub fn iter(&self) -> (r: XvecIter<'_>)
-        ensures r.rem().len() == self@.len(), forall|i: int| 0 <= i < self@.len() ==> *(#[trigger] r.rem()[i]) == self@[i] { unimplemented!() }
+        ensures self@.len() <= usize::MAX, r.rem().len() == self@.len(), forall|i: int| 0 <= i < self@.len() ==> *(#[trigger] r.rem()[i]) == self@[i] { unimplemented!() }
 }
